@@ -647,6 +647,7 @@ type c18opObs struct {
 	failed    bool   // Response.Failed != nil
 	armed     bool   // the transport fault had happened when the operation returned
 	skipped   bool   // not run (an earlier operation broke the transport)
+	pendingLate bool // a late emission was still pending when the operation returned (appended to the history)
 }
 
 type c18obs struct {
@@ -658,6 +659,7 @@ type c18obs struct {
 	syncFail bool
 	newErr   string
 	delayedE map[int]bool // emissions that were sent by the delay timer
+	emittedRaw []byte     // the device's own record of every byte it emitted
 }
 
 type c18log struct {
@@ -666,8 +668,10 @@ type c18log struct {
 }
 
 func (l *c18log) Write(b []byte) (int, error) {
-	l.bytes.Add(int64(len(b)))
+	// order matters: settle() waits on the byte count and the chunk count is read right after it,
+	// so the chunk count must be complete by the time the bytes are visible
 	l.writes.Add(1)
+	l.bytes.Add(int64(len(b)))
 	return len(b), nil
 }
 
@@ -946,6 +950,7 @@ func runC18case(cs c18case) c18obs {
 	dev.Snapshot(func() {
 		o.chunks = append(o.chunks, dev.EmittedChunks...)
 		o.readLog = append(o.readLog, dev.ReadLog...)
+		o.emittedRaw = append([]byte{}, dev.EmittedBytes()...)
 	})
 	o.written = string(dev.AllWritten())
 	return o
@@ -1002,6 +1007,7 @@ func c18arrivals(cs *c18case, o *c18obs, k int) []c18arrival {
 	if k == len(o.ops)-1 {
 		for e := range cs.emissions {
 			if o.delayedE[e] && !seenEm[e] {
+				o.ops[k].pendingLate = true
 				for j, ch := range cs.emissions[e] {
 					gap := 0
 					if j == 0 {
@@ -1355,6 +1361,14 @@ func c18round(c *ctx, cases []c18case, par int, first bool) (retry []c18case) {
 			res.Fail("machinery", caseLine, fmt.Sprintf("reads %v do not follow the scripted chunks", o.readLog), "segmentation")
 			continue
 		}
+		// self-check: the history the verdict is based on is the history the device produced. The
+		// reported chunks are exactly the device's byte stream; every range attributed to a callback
+		// function's own channel operation is that operation's exchange (echo + answer); every chunk
+		// of an operation is either an arrival of the loop or inside such a range.
+		if msg := c18selfCheck(cs, o, func(k int) []c18arrival { return arrs[ref{i, k}] }); msg != "" {
+			res.Fail("machinery", caseLine, "arrival history does not match what the device emitted: "+msg, "arrivals-vs-device")
+			continue
+		}
 		nontriv := false
 		allDom := true
 		bad := false
@@ -1544,6 +1558,66 @@ func c18round(c *ctx, cases []c18case, par int, first bool) (retry []c18case) {
 	return retry
 }
 
+func c18selfCheck(cs *c18case, o *c18obs, arr func(int) []c18arrival) string {
+	var all []byte
+	for _, ch := range o.chunks {
+		all = append(all, ch.Data...)
+	}
+	if !bytes.Equal(all, o.emittedRaw) {
+		return fmt.Sprintf("chunk list %q, device stream %q", all, o.emittedRaw)
+	}
+	for _, f := range o.fires {
+		if !f.innerRan {
+			continue
+		}
+		var got, want []byte
+		for ci := f.skipFrom; ci < f.skipTo && ci < len(o.chunks); ci++ {
+			got = append(got, o.chunks[ci].Data...)
+		}
+		want = append(want, cs.cbs[f.idx].inner...)
+		for _, ch := range cs.special[cs.cbs[f.idx].inner] {
+			want = append(want, ch...)
+		}
+		if !bytes.Equal(got, want) {
+			return fmt.Sprintf("chunks %d..%d attributed to callback %d's own operation are %q, its exchange is %q", f.skipFrom, f.skipTo, f.idx, got, want)
+		}
+		if f.consumed != f.skipTo {
+			return fmt.Sprintf("callback %d: consumed %d after its own operation ended at %d", f.idx, f.consumed, f.skipTo)
+		}
+	}
+	for k := range o.ops {
+		if o.ops[k].skipped {
+			continue
+		}
+		end := o.ops[k].emitted
+		if o.ops[k].armed && o.ops[k].consumed < end {
+			end = o.ops[k].consumed
+		}
+		var want, got []byte
+		for ci := o.ops[k].startAt; ci < end && ci < len(o.chunks); ci++ {
+			inner := false
+			for _, f := range o.fires {
+				inner = inner || (f.innerRan && f.skipFrom <= ci && ci < f.skipTo)
+			}
+			if !inner {
+				want = append(want, o.chunks[ci].Data...)
+			}
+		}
+		for _, a := range arr(k) {
+			if a.gap == 0 || !o.ops[k].pendingLate {
+				got = append(got, a.data...)
+			}
+		}
+		if !bytes.HasPrefix(got, want) || (!o.ops[k].pendingLate && len(got) != len(want)) {
+			return fmt.Sprintf("operation %d: arrivals carry %q, the device emitted %q for the loop", k, got, want)
+		}
+		if k > 0 && !o.ops[k-1].skipped && o.ops[k].startAt < o.ops[k-1].consumed {
+			return fmt.Sprintf("operation %d starts at chunk %d, before the %d chunks operation %d consumed", k, o.ops[k].startAt, o.ops[k-1].consumed, k-1)
+		}
+	}
+	return ""
+}
+
 // setupOrRead: endings that machine load cannot turn into a timeout (they do not wait for output)
 func setupOrRead(o string) bool { return o == "opt" || o == "write" || o == "read" }
 
@@ -1582,6 +1656,9 @@ func c18descCbs(cs *c18case) string {
 		}
 		if cb.nextTimeout != 0 {
 			d += fmt.Sprintf("next=%d ", cb.nextTimeout)
+		}
+		if cb.inner != "" {
+			d += fmt.Sprintf("runs=%q ", cb.inner)
 		}
 		if cb.reply != "" {
 			d += fmt.Sprintf("reply=%q ", cb.reply)
